@@ -6,6 +6,7 @@
 -/
 import FP.Model.Types
 import FP.Ref.Types
+import FP.Model.Eval
 namespace FP.Props.C12
 open FP FP.Model FP.Ref FP.Gen.TypeParent
 
@@ -147,5 +148,41 @@ theorem long_specifier_rejected (ps : List String) (h : 3 ≤ ps.length ∨ ps =
 /-- … while one- and two-part names are looked up as before -/
 theorem short_specifier_resolved (ns n : String) :
     resolveParts [n] = resolve none n ∧ resolveParts [ns, n] = resolve (some ns) n := ⟨rfl, rfl⟩
+
+/-! ### `is` / `as` on whole expressions (the assembled evaluator, FP.Model.Eval) -/
+
+section Expr
+open FP.Model.Eval
+
+/-- `x as T` returns x itself when `x is T` and empty otherwise — for every operand expression that
+    evaluates to a single item, every type specifier, environment and input -/
+theorem expr_as_iff_is (env : Env) (e : E) (t : TypeSpecifier) (input : List Val) (x : Val)
+    (h : eval env e input = .ok [x]) :
+    eval env (.isT e t) input = .ok [.bool (itemIs x t)] ∧
+    eval env (.asT e t) input = .ok (if itemIs x t then [x] else []) := by
+  simp [eval, h, Res.bind, typeOpColl]
+
+/-- an empty operand gives empty, more than one item is an error — for `is` and `as` alike -/
+theorem expr_type_op_cardinality (env : Env) (e : E) (t : TypeSpecifier) (input : List Val) :
+    (eval env e input = .ok [] → eval env (.isT e t) input = .ok [] ∧ eval env (.asT e t) input = .ok []) ∧
+    (∀ a b r, eval env e input = .ok (a :: b :: r) →
+      eval env (.isT e t) input = .err "not-singleton" ∧ eval env (.asT e t) input = .err "not-singleton") := by
+  refine ⟨fun h => ?_, fun a b r h => ?_⟩ <;> simp [eval, h, Res.bind, typeOpColl]
+
+/-- a computed value has its System type: it is that type and `System.Any`, and no FHIR type -/
+theorem expr_system_value_types (v : Val) (hv : v = .bool true ∨ v = .int 7 ∨ v = .dec ⟨15, -1⟩ ∨ v = .str [97]) :
+    itemIs v ⟨"System", sysName v⟩ = true ∧ itemIs v ⟨"System", "Any"⟩ = true ∧
+    itemIs v ⟨"FHIR", "Element"⟩ = false ∧ itemIs v ⟨"FHIR", "string"⟩ = false ∧ itemIs v ⟨"FHIR", "integer"⟩ = false := by
+  rcases hv with rfl | rfl | rfl | rfl <;> decide +kernel
+
+/-- Compile resolves the written specifier exactly as `resolveParts` does, and rejects what it rejects -/
+theorem expr_compile_type_specifier (tbl : List FP.Gen.FuncTable.Entry) (e : Syntax.Ex) (parts : List String) (vr : Bool)
+    (ce : E) (vr1 : Bool) (he : compile tbl e vr = .ok (ce, vr1)) :
+    (∀ ts, resolveParts parts = .ok ts → compile tbl (.typ "is" e parts) vr = .ok (.isT ce ts, vr1) ∧
+                                         compile tbl (.typ "as" e parts) vr = .ok (.asT ce ts, vr1)) ∧
+    (∀ m, resolveParts parts = .err m → compile tbl (.typ "is" e parts) vr = .error) := by
+  refine ⟨fun ts h => ?_, fun m h => ?_⟩ <;> simp [compile, he, h, CRes.bind]
+
+end Expr
 
 end FP.Props.C12
